@@ -171,7 +171,7 @@ func analyse(x *Exec) *RunResult {
 func leakCause(x *Exec, left []string, vnodes []string, tabs map[string][]string) string {
 	viaLink, failed, other, empty, unread, rewatched, stale, closing, removing, reused, deadMark := false, false, false, false, false, false, false, false, false, false, false
 	// user directories whose path was renamed away / removed and re-created during the run
-	rebound := map[string]bool{}
+	rebound := map[string]int{} // path -> step of the mkdir that re-created it
 	gone := map[string]bool{}
 	for _, w := range x.WorldLog {
 		if w.Err != "" {
@@ -182,7 +182,9 @@ func leakCause(x *Exec, left []string, vnodes []string, tabs map[string][]string
 			gone[w.Op.P] = true
 		case OpMkdir:
 			if gone[w.Op.P] {
-				rebound[w.Op.P] = true
+				if _, had := rebound[w.Op.P]; !had {
+					rebound[w.Op.P] = w.Step
+				}
 			}
 		}
 	}
@@ -257,6 +259,11 @@ func leakCause(x *Exec, left []string, vnodes []string, tabs map[string][]string
 		}
 		isStale := false
 		for u := range rebound {
+			// (deliberately coarse: any leak below a watched path that was removed /
+			// renamed away and re-created during the run. The scans of the reader and of
+			// Add list a directory by path, and the ways in which a scan that belongs to
+			// the old directory picks up entries of the new one are too many to tell
+			// apart from the logs. Runs without such a re-creation are not affected.)
 			if under(rel, u) {
 				isStale = true
 			}
@@ -346,6 +353,27 @@ func removedDuringAdd(x *Exec, path string) bool {
 			if claim >= c.Inv && (c.Ret < 0 || claim <= c.Ret) {
 				return true
 			}
+		}
+	}
+	return false
+}
+
+// oldDirWatchAlive: a descriptor for dir that was opened before step at is still open at step when.
+func oldDirWatchAlive(x *Exec, dir string, at, when int) bool {
+	calls := x.kq.kern.Calls
+	for i, c := range calls {
+		if c.Kind != "open" || c.Errno != 0 || c.Step >= at || cleanPath(c.Path) != dir {
+			continue
+		}
+		closed := 1 << 30
+		for _, k := range calls[i+1:] {
+			if k.Kind == "close" && k.FD == c.FD {
+				closed = k.Step
+				break
+			}
+		}
+		if closed > when {
+			return true
 		}
 	}
 	return false
@@ -568,31 +596,33 @@ func checkKqDir(x *Exec) []Violation {
 		return nil
 	}
 	wr := x.W[0]
-	// watched directories: spelling by real path, from the setup Adds
-	type wdir struct{ spelling, real string }
+	// watched directories: spelling by real path, each for the time between its
+	// Add and its Remove (the history is sequential: API calls and filesystem
+	// operations alternate in one task)
+	type wdir struct {
+		spelling, real string
+		from, to       int
+	}
 	var dirs []wdir
 	for _, c := range x.H {
-		if c.Kind == OpAdd && c.Class == "" && c.Phase == "setup" && c.Real != "" {
-			dirs = append(dirs, wdir{filepath.Clean(c.Path), c.Real})
+		if c.Kind == OpAdd && c.Class == "" && (c.Phase == "setup" || c.Phase == "body") && c.Real != "" {
+			dirs = append(dirs, wdir{filepath.Clean(c.Path), c.Real, c.Ret, 1 << 30})
 		}
-	}
-	// a directory the history removes again (always its first step) is not a watched directory of the history
-	for _, c := range x.H {
 		if c.Kind == OpRemove && c.Class == "" && c.Phase == "body" {
-			for i := 0; i < len(dirs); i++ {
-				if dirs[i].spelling == filepath.Clean(c.Path) {
-					dirs = append(dirs[:i], dirs[i+1:]...)
-					i--
+			for i := range dirs {
+				if dirs[i].spelling == filepath.Clean(c.Path) && dirs[i].to == 1<<30 {
+					dirs[i].to = c.Inv
 				}
 			}
 		}
 	}
 	// NOTE: EvalSymlinks runs after the history; the generator never moves the
 	// watched directories themselves in this family, so the mapping is stable.
+	now := 0
 	spell := func(real string) (string, bool) {
 		d := filepath.Dir(real)
 		for _, w := range dirs {
-			if w.real == d {
+			if w.real == d && w.from <= now && now < w.to {
 				return w.spelling + "/" + filepath.Base(real), true
 			}
 		}
@@ -611,6 +641,7 @@ func checkKqDir(x *Exec) []Violation {
 		if w.Task == "main" {
 			continue // setup
 		}
+		now = w.Step
 		var got []string
 		for di < len(wr.D) && wr.D[di].Step < end {
 			if wr.D[di].Step >= w.Step {
